@@ -20,17 +20,36 @@ import Driver.Sexp
 namespace Driver
 open PLS
 
-/-- `glob::Pattern::matches` with default options on the pattern forms the generators use:
-    `*` and `**` match any run of characters (separators included), `?` one character. -/
-partial def globMatch : List Char → List Char → Bool
-  | [], [] => true
-  | [], _ => false
-  | '*' :: ps, s =>
-    let ps := ps.dropWhile (· == '*')
-    (List.range (s.length + 1)).any (fun k => globMatch ps (s.drop k))
-  | '?' :: ps, _ :: s => globMatch ps s
-  | p :: ps, c :: s => p == c && globMatch ps s
-  | _ :: _, [] => false
+/-- tokens of `glob::Pattern` for the pattern forms the generators use (no character classes):
+    `?` one character, `*` any run of characters (separators included — `require_literal_separator`
+    is off), `**/` or a trailing `**` (a whole path component) any run of whole components,
+    possibly none. -/
+inductive GTok where
+  | ch (c : Char) | any | seq | recSeq
+  deriving Repr
+
+partial def globTokens : List Char → List GTok
+  | '*' :: '*' :: '/' :: rest => .recSeq :: globTokens rest
+  | '*' :: '*' :: [] => [.recSeq]
+  | '*' :: rest => .seq :: globTokens (rest.dropWhile (· == '*'))
+  | '?' :: rest => .any :: globTokens rest
+  | c :: rest => .ch c :: globTokens rest
+  | [] => []
+
+/-- `Pattern::matches_from`: a (recursive) sequence first tries the empty match, then every longer
+    one — the recursive form only at component boundaries -/
+partial def gmatch : List GTok → List Char → Bool
+  | [], s => s.isEmpty
+  | .ch c :: ts, x :: s => c == x && gmatch ts s
+  | .ch _ :: _, [] => false
+  | .any :: ts, _ :: s => gmatch ts s
+  | .any :: _, [] => false
+  | .seq :: ts, s => (List.range (s.length + 1)).any (fun k => gmatch ts (s.drop k))
+  | .recSeq :: ts, s =>
+    (List.range (s.length + 1)).any (fun k =>
+      (k == 0 || k == s.length || s[k - 1]? == some '/') && gmatch ts (s.drop k))
+
+def globMatch (pat s : List Char) : Bool := gmatch (globTokens pat) s
 
 /-- the path space of a case has the case directory as origin: the workspace root is `ws`, files
     outside the workspace live under `ext` (written `@EXT/...` in case files) -/
